@@ -2,33 +2,52 @@
    (garbage_collector.py collect / _load_inflight_protection / _gc_prefix; transaction.py
     _register_inflight, append_data, _commit_file_ops, _finish_committed, _rollback.)
 
-   Each transaction t owns one file (its data file; manifests and manifest lists follow the same
-   marker-before-write discipline): MarkW (in-flight marker) ; DataW (file written, mtime = now) ;
-   Flip (the commit makes the file referenced) ; MarkD (marker removed after the commit) -- or Rollback
-   (file and marker removed by the transaction itself).  Time is carried by Tick events and never
-   decreases; a file written long ago and committed only now is simply a long gap between DataW and
-   Flip.  The collector (repaired order): GMarks (protection := targets of the markers present now)
-   ; GMeta (reach := files referenced now) ; then one or more rounds of GList (listing := files present
-   now, cutoff := now - grace) and GDel f for listed f not in reach / protection and older than the
-   cutoff.  `GList` is enabled only while the run has lasted less than the grace period -- the
-   property's proviso.  Orphans (files no live transaction owns) are ordinary deletion candidates.
+   The unit is a FILE f a transaction writes under the marker-before-write discipline -- its data file,
+   and equally each manifest and manifest list of a commit attempt: MarkW (in-flight marker, mtime = now) ;
+   DataW (file in place, mtime = now -- any amount of time after the marker: a slow write) ; Flip (the
+   commit makes the file referenced) ; MarkD (marker removed after the commit) -- or Rollback (file and
+   marker removed by the transaction itself) -- or Abandon (the transaction drops the marker of a file it
+   wrote and will never publish: the manifests of a commit attempt that lost the race; the file is an
+   ordinary orphan from then on).  Time is carried by Tick events and never decreases; a file written long
+   ago and committed only now is simply a long gap between DataW and Flip.
+
+   A PRE-BUILT file (Transaction.append_files) exists before its transaction and may be arbitrarily old:
+   Stage mt (the file appears under data/ with any modification time up to now; unreferenced and unmarked, it
+   is an orphan to the collector) ; AdoptMark (append_files registers its marker) ; Adopt (append_files finds
+   no announced collection run and the file still in place: from here on it is a written, marked file like
+   any other) -- or Abandon (the adoption is refused / given up: marker removed, the file is an orphan
+   again).  `TAdoptBare` is adoption as the code did it before the repair (no marker, no look at running
+   collections): `gstep` has no such step; `gstep_unrepaired` has, and C06 fails for it (Props/C06.v).
+
+   The collector (repaired order): GAnnounce (Table.garbage_collect announces the run under
+   metadata/collecting/ BEFORE anything else; withdrawn at GEnd) ; GMarks timeout (protection := targets of
+   the markers present now, the abandonment cutoff is fixed) ; GSweep f for listed markers the REGENERATED kernel classifies as
+   abandoned (the marker is deleted and protects nothing -- Gen/GenGCRace.v gen_marker_age_ok /
+   gen_marker_action: older than the abandonment timeout, whatever else is true of the marker or its file) ;
+   GMeta (reach := files referenced now) ; then one or more rounds of GList grace (listing := files present
+   now, cutoff := gen_sweep_cutoff now grace) and GDel f for listed f passing the regenerated deletion
+   guard (gen_delete_guard: not reachable, not protected, older than the cutoff).  `GList` is enabled only
+   while the run has lasted less than the grace period -- the property's proviso.  Orphans (files no live
+   transaction owns) are ordinary deletion candidates.  `g_swept f` is a ghost: some run treated f's
+   marker as abandoned (its transaction outlived the abandonment timeout).
    Definitions only; proofs in Proofs/GCRaceProofs.v. *)
 From Coq Require Import ZArith List Bool Arith.
+Require Import DS.Model.GCRaceBase DS.Gen.GenGCRace.
 Import ListNotations.
 Open Scope Z_scope.
 
 Definition tid := nat.
 
-Inductive tpc := TNew | TMarked | TWritten | TFlipped | TDone | TRolled.
-Inductive gpc := GIdle | GGotMarks | GGotReach | GListed.
+Inductive tpc := TNew | TMarked | TWritten | TFlipped | TDone | TRolled | TOrphaned | TPre | TAdoptM.
+Inductive gpc := GIdle | GAnnounced | GGotMarks | GGotReach | GListed.
 
 Record gworld := {
   g_now : Z;
   g_tpc : tid -> tpc;
-  g_mtime : tid -> Z;               (* mtime of transaction t's file (meaningful once written) *)
-  g_present : tid -> bool;          (* does t's file exist *)
-  g_marker : tid -> bool;           (* does t's in-flight marker exist *)
-  g_ref : tid -> bool;              (* is t's file referenced by the committed table *)
+  g_mtime : tid -> Z;               (* mtime of file f (meaningful once written) *)
+  g_present : tid -> bool;          (* does file f exist *)
+  g_marker : tid -> bool;           (* does f's in-flight marker exist *)
+  g_ref : tid -> bool;              (* is f referenced by the committed table *)
   g_orphans : list (nat * Z);       (* unowned, unreferenced files: (name, mtime) *)
   g_gpc : gpc;
   g_prot : tid -> bool;             (* collector's protection snapshot *)
@@ -36,20 +55,34 @@ Record gworld := {
   g_start : Z;                      (* when the run started *)
   g_cutoff : Z;
   g_listing : tid -> bool;          (* collector's listing snapshot (transaction files) *)
-  g_deleted : list tid }.           (* ghost: transaction files the collector deleted *)
+  g_deleted : list tid;             (* ghost: transaction files the collector deleted *)
+  g_mkmtime : tid -> Z;             (* mtime of f's marker (meaningful once written) *)
+  g_mcut : Z;                       (* the run's abandonment cutoff for markers *)
+  g_swept : tid -> bool }.          (* ghost: a run deleted f's marker as abandoned *)
 
 Inductive gevent :=
 | Tick (dt : Z)
-| TMarkW (t : tid) | TDataW (t : tid) | TFlip (t : tid) | TMarkD (t : tid) | TRollback (t : tid)
-| GMarks | GMeta | GList (grace : Z) | GDel (t : tid) | GDelOrphan (n : nat) | GEnd.
+| TMarkW (t : tid) | TDataW (t : tid) | TFlip (t : tid) | TMarkD (t : tid) | TRollback (t : tid) | TAbandon (t : tid)
+| TStage (t : tid) (mt : Z) | TAdoptMark (t : tid) | TAdopt (t : tid) | TAdoptBare (t : tid)
+| GAnnounce | GMarks (timeout : Z) | GSweep (t : tid) | GMeta | GList (grace : Z) | GDel (t : tid) | GDelOrphan (n : nat) | GEnd.
 
 Definition updf {A} (t : tid) (v : A) (f : tid -> A) : tid -> A := fun u => if Nat.eqb u t then v else f u.
 
-Definition with_tx (w : gworld) (t : tid) (p : tpc) (mt : Z) (pres mk rf : bool) : gworld :=
+(* a transaction's step on its file t *)
+Definition with_tx (w : gworld) (t : tid) (p : tpc) (mt : Z) (pres mk rf : bool) (mkmt : Z) : gworld :=
   {| g_now := g_now w; g_tpc := updf t p (g_tpc w); g_mtime := updf t mt (g_mtime w);
      g_present := updf t pres (g_present w); g_marker := updf t mk (g_marker w); g_ref := updf t rf (g_ref w);
      g_orphans := g_orphans w; g_gpc := g_gpc w; g_prot := g_prot w; g_reach := g_reach w; g_start := g_start w;
-     g_cutoff := g_cutoff w; g_listing := g_listing w; g_deleted := g_deleted w |}.
+     g_cutoff := g_cutoff w; g_listing := g_listing w; g_deleted := g_deleted w;
+     g_mkmtime := updf t mkmt (g_mkmtime w); g_mcut := g_mcut w; g_swept := g_swept w |}.
+
+(* a collector step that only changes the collector's own snapshots *)
+Definition with_gc (w : gworld) (pc : gpc) (prot reach : tid -> bool) (start cutoff : Z) (listing : tid -> bool) (mcut : Z)
+                   (orph : list (nat * Z)) : gworld :=
+  {| g_now := g_now w; g_tpc := g_tpc w; g_mtime := g_mtime w; g_present := g_present w; g_marker := g_marker w;
+     g_ref := g_ref w; g_orphans := orph; g_gpc := pc; g_prot := prot; g_reach := reach; g_start := start;
+     g_cutoff := cutoff; g_listing := listing; g_deleted := g_deleted w;
+     g_mkmtime := g_mkmtime w; g_mcut := mcut; g_swept := g_swept w |}.
 
 Definition gstep (w : gworld) (e : gevent) : option gworld :=
   match e with
@@ -57,73 +90,127 @@ Definition gstep (w : gworld) (e : gevent) : option gworld :=
     if 0 <=? dt then
       Some {| g_now := g_now w + dt; g_tpc := g_tpc w; g_mtime := g_mtime w; g_present := g_present w; g_marker := g_marker w;
               g_ref := g_ref w; g_orphans := g_orphans w; g_gpc := g_gpc w; g_prot := g_prot w; g_reach := g_reach w;
-              g_start := g_start w; g_cutoff := g_cutoff w; g_listing := g_listing w; g_deleted := g_deleted w |}
+              g_start := g_start w; g_cutoff := g_cutoff w; g_listing := g_listing w; g_deleted := g_deleted w;
+              g_mkmtime := g_mkmtime w; g_mcut := g_mcut w; g_swept := g_swept w |}
     else None
-  | TMarkW t => match g_tpc w t with TNew => Some (with_tx w t TMarked (g_mtime w t) false true false) | _ => None end
-  | TDataW t => match g_tpc w t with TMarked => Some (with_tx w t TWritten (g_now w) true true false) | _ => None end
+  | TMarkW t => match g_tpc w t with TNew => Some (with_tx w t TMarked (g_mtime w t) false true false (g_now w)) | _ => None end
+  | TDataW t => match g_tpc w t with TMarked => Some (with_tx w t TWritten (g_now w) true (g_marker w t) false (g_mkmtime w t)) | _ => None end
   | TFlip t =>
     match g_tpc w t with
-    | TWritten => Some (with_tx w t TFlipped (g_mtime w t) (g_present w t) true true)
+    | TWritten => Some (with_tx w t TFlipped (g_mtime w t) (g_present w t) (g_marker w t) true (g_mkmtime w t))
     | _ => None
     end
-  | TMarkD t => match g_tpc w t with TFlipped => Some (with_tx w t TDone (g_mtime w t) (g_present w t) false true) | _ => None end
+  | TMarkD t => match g_tpc w t with TFlipped => Some (with_tx w t TDone (g_mtime w t) (g_present w t) false true (g_mkmtime w t)) | _ => None end
   | TRollback t =>
     match g_tpc w t with
-    | TMarked | TWritten => Some (with_tx w t TRolled (g_mtime w t) false false false)
+    | TMarked | TWritten => Some (with_tx w t TRolled (g_mtime w t) false false false (g_mkmtime w t))
     | _ => None
     end
-  | GMarks =>
+  | TAbandon t =>
+    match g_tpc w t with
+    | TWritten | TAdoptM => Some (with_tx w t TOrphaned (g_mtime w t) (g_present w t) false false (g_mkmtime w t))
+    | _ => None
+    end
+  | TStage t mt =>
+    match g_tpc w t with
+    | TNew => if mt <=? g_now w then Some (with_tx w t TPre mt true false false (g_mkmtime w t)) else None
+    | _ => None
+    end
+  | TAdoptMark t =>
+    match g_tpc w t with
+    | TPre => Some (with_tx w t TAdoptM (g_mtime w t) (g_present w t) true false (g_now w))
+    | _ => None
+    end
+  | TAdopt t =>
+    match g_tpc w t, g_gpc w with
+    | TAdoptM, GIdle =>             (* no collection run is announced ... *)
+      if g_present w t              (* ... and the file is still in place *)
+      then Some (with_tx w t TWritten (g_mtime w t) (g_present w t) (g_marker w t) false (g_mkmtime w t)) else None
+    | _, _ => None
+    end
+  | TAdoptBare t => None            (* the repaired code has no such step (see gstep_unrepaired) *)
+  | GAnnounce =>
     match g_gpc w with
-    | GIdle => Some {| g_now := g_now w; g_tpc := g_tpc w; g_mtime := g_mtime w; g_present := g_present w; g_marker := g_marker w;
-                       g_ref := g_ref w; g_orphans := g_orphans w; g_gpc := GGotMarks; g_prot := g_marker w; g_reach := g_reach w;
-                       g_start := g_now w; g_cutoff := g_cutoff w; g_listing := g_listing w; g_deleted := g_deleted w |}
+    | GIdle => Some (with_gc w GAnnounced (g_prot w) (g_reach w) (g_now w) (g_cutoff w) (g_listing w) (g_mcut w) (g_orphans w))
+    | _ => None
+    end
+  | GMarks timeout =>
+    match g_gpc w with
+    | GAnnounced => Some (with_gc w GGotMarks (g_marker w) (g_reach w) (g_start w) (g_cutoff w) (g_listing w)
+                                  (gen_marker_cutoff (g_now w) timeout) (g_orphans w))
+    | _ => None
+    end
+  | GSweep t =>
+    match g_gpc w with
+    | GGotMarks =>
+      if g_prot w t then
+        match gen_marker_action (gen_marker_age_ok (g_mcut w) (Some (g_mkmtime w t))) with
+        | MSweep =>
+          Some {| g_now := g_now w; g_tpc := g_tpc w; g_mtime := g_mtime w; g_present := g_present w;
+                  g_marker := updf t false (g_marker w); g_ref := g_ref w; g_orphans := g_orphans w; g_gpc := g_gpc w;
+                  g_prot := updf t false (g_prot w); g_reach := g_reach w; g_start := g_start w; g_cutoff := g_cutoff w;
+                  g_listing := g_listing w; g_deleted := g_deleted w;
+                  g_mkmtime := g_mkmtime w; g_mcut := g_mcut w; g_swept := updf t true (g_swept w) |}
+        | MProtect => None
+        end
+      else None
     | _ => None
     end
   | GMeta =>
     match g_gpc w with
-    | GGotMarks => Some {| g_now := g_now w; g_tpc := g_tpc w; g_mtime := g_mtime w; g_present := g_present w; g_marker := g_marker w;
-                           g_ref := g_ref w; g_orphans := g_orphans w; g_gpc := GGotReach; g_prot := g_prot w; g_reach := g_ref w;
-                           g_start := g_start w; g_cutoff := g_cutoff w; g_listing := g_listing w; g_deleted := g_deleted w |}
+    | GGotMarks => Some (with_gc w GGotReach (g_prot w) (g_ref w) (g_start w) (g_cutoff w) (g_listing w) (g_mcut w) (g_orphans w))
     | _ => None
     end
   | GList grace =>
     match g_gpc w with
     | GGotReach | GListed =>
       if g_now w - g_start w <? grace then      (* the run has lasted less than the grace period *)
-        Some {| g_now := g_now w; g_tpc := g_tpc w; g_mtime := g_mtime w; g_present := g_present w; g_marker := g_marker w;
-                g_ref := g_ref w; g_orphans := g_orphans w; g_gpc := GListed; g_prot := g_prot w; g_reach := g_reach w;
-                g_start := g_start w; g_cutoff := g_now w - grace; g_listing := g_present w; g_deleted := g_deleted w |}
+        Some (with_gc w GListed (g_prot w) (g_reach w) (g_start w) (gen_sweep_cutoff (g_now w) grace) (g_present w) (g_mcut w) (g_orphans w))
       else None
     | _ => None
     end
   | GDel t =>
     match g_gpc w with
     | GListed =>
-      if g_listing w t && negb (g_reach w t) && negb (g_prot w t) && (g_mtime w t <? g_cutoff w) && g_present w t then
+      if g_listing w t && gen_delete_guard (g_reach w t || g_prot w t) (g_mtime w t) (g_cutoff w) && g_present w t then
         Some {| g_now := g_now w; g_tpc := g_tpc w; g_mtime := g_mtime w; g_present := updf t false (g_present w); g_marker := g_marker w;
                 g_ref := g_ref w; g_orphans := g_orphans w; g_gpc := g_gpc w; g_prot := g_prot w; g_reach := g_reach w;
-                g_start := g_start w; g_cutoff := g_cutoff w; g_listing := g_listing w; g_deleted := t :: g_deleted w |}
+                g_start := g_start w; g_cutoff := g_cutoff w; g_listing := g_listing w; g_deleted := t :: g_deleted w;
+                g_mkmtime := g_mkmtime w; g_mcut := g_mcut w; g_swept := g_swept w |}
       else None
     | _ => None
     end
   | GDelOrphan n =>
     match g_gpc w with
     | GListed =>
-      if existsb (fun o => Nat.eqb (fst o) n && (snd o <? g_cutoff w)) (g_orphans w) then
-        Some {| g_now := g_now w; g_tpc := g_tpc w; g_mtime := g_mtime w; g_present := g_present w; g_marker := g_marker w;
-                g_ref := g_ref w; g_orphans := filter (fun o => negb (Nat.eqb (fst o) n)) (g_orphans w); g_gpc := g_gpc w;
-                g_prot := g_prot w; g_reach := g_reach w; g_start := g_start w; g_cutoff := g_cutoff w; g_listing := g_listing w;
-                g_deleted := g_deleted w |}
+      if existsb (fun o => Nat.eqb (fst o) n && gen_delete_guard false (snd o) (g_cutoff w)) (g_orphans w) then
+        Some (with_gc w GListed (g_prot w) (g_reach w) (g_start w) (g_cutoff w) (g_listing w) (g_mcut w)
+                      (filter (fun o => negb (Nat.eqb (fst o) n)) (g_orphans w)))
       else None
     | _ => None
     end
   | GEnd =>
     match g_gpc w with
     | GIdle => None
-    | _ => Some {| g_now := g_now w; g_tpc := g_tpc w; g_mtime := g_mtime w; g_present := g_present w; g_marker := g_marker w;
-                   g_ref := g_ref w; g_orphans := g_orphans w; g_gpc := GIdle; g_prot := g_prot w; g_reach := g_reach w;
-                   g_start := g_start w; g_cutoff := g_cutoff w; g_listing := g_listing w; g_deleted := g_deleted w |}
+    | _ => Some (with_gc w GIdle (g_prot w) (g_reach w) (g_start w) (g_cutoff w) (g_listing w) (g_mcut w) (g_orphans w))
     end
+  end.
+
+(* Adoption of a pre-built file as the code did it BEFORE the repair: no marker, no look at running
+   collections -- the staged file simply becomes a file of the transaction. *)
+Definition gstep_unrepaired (w : gworld) (e : gevent) : option gworld :=
+  match e with
+  | TAdoptBare t =>
+    match g_tpc w t with
+    | TPre => if g_present w t then Some (with_tx w t TWritten (g_mtime w t) true false false (g_mkmtime w t)) else None
+    | _ => None
+    end
+  | _ => gstep w e
+  end.
+Fixpoint grun_strict_unrepaired (w : gworld) (evs : list gevent) : option gworld :=
+  match evs with
+  | [] => Some w
+  | e :: evs' => match gstep_unrepaired w e with Some w' => grun_strict_unrepaired w' evs' | None => None end
   end.
 
 Definition gstep_skip w e := match gstep w e with Some w' => w' | None => w end.
@@ -137,4 +224,13 @@ Fixpoint grun_strict (w : gworld) (evs : list gevent) (i : nat) : gworld + nat :
 Definition ginit (orph : list (nat * Z)) : gworld :=
   {| g_now := 0; g_tpc := fun _ => TNew; g_mtime := fun _ => 0; g_present := fun _ => false; g_marker := fun _ => false;
      g_ref := fun _ => false; g_orphans := orph; g_gpc := GIdle; g_prot := fun _ => false; g_reach := fun _ => false;
-     g_start := 0; g_cutoff := 0; g_listing := fun _ => false; g_deleted := [] |}.
+     g_start := 0; g_cutoff := 0; g_listing := fun _ => false; g_deleted := [];
+     g_mkmtime := fun _ => 0; g_mcut := 0; g_swept := fun _ => false |}.
+
+(* the abandonment timeouts of the collection runs of an event list *)
+Fixpoint timeouts (evs : list gevent) : list Z :=
+  match evs with
+  | [] => []
+  | GMarks timeout :: r => timeout :: timeouts r
+  | _ :: r => timeouts r
+  end.
